@@ -1,7 +1,7 @@
 """Sidecar contracts for google/openhtf.  One module per property group; nothing in /repo is annotated."""
 import importlib
 
-MODULES = ['_trusted', 'core', 'c07', 'c20', 'c01', 'c05', 'usb_model', 'c13', 'fs_model', 'c17', 'c02', 'c16', 'c06', 'c08', 'c09', 'c10', 'c15']
+MODULES = ['_trusted', 'core', 'c07', 'c20', 'c01', 'c05', 'usb_model', 'c13', 'fs_model', 'c17', 'c02', 'c16', 'c06', 'c08', 'c09', 'c10', 'c15', 'c12']
 
 
 def register_all(reg):
